@@ -19,18 +19,18 @@ ASSUMPTIONS = ['the declared type of a constant is read from theory.thy term_sig
                'exact recovery is demanded only when inference succeeds; failure must be TypeInferenceException '
                '(or TheoryException for unknown constants)']
 REQUIRED = {'quick': {'calls_observed': 8000, 'returns_judged': 3000, 'gen_erasures': 2500, 'gen_illtyped': 300,
-                      'lib_calls_observed': 1500, 'exact_recoveries': 800},
+                      'lib_calls_observed': 1500, 'exact_recoveries': 800, 'hist_inferences': 200},
             'thorough': {'calls_observed': 150000, 'returns_judged': 60000, 'gen_erasures': 50000, 'gen_illtyped': 6000,
-                         'lib_calls_observed': 30000, 'exact_recoveries': 15000}}
+                         'lib_calls_observed': 30000, 'exact_recoveries': 15000, 'hist_inferences': 5000}}
 SHARD_TIMEOUT = {'quick': 1200, 'thorough': 7200}
 NONE = ('none',)
 
 
 def shards(tier, seed):
     if tier == 'quick':
-        return ([{'kind': 'gen', 'i': i, 'count': 450} for i in range(10)] +
+        return ([{'kind': 'gen', 'i': i, 'count': 450} for i in range(9)] + [{'kind': 'hist', 'i': 0, 'count': 120}] +
                 [{'kind': 'lib', 'i': i, 'parts': 6, 'frac': 0.1} for i in range(6)])
-    return ([{'kind': 'gen', 'i': i, 'count': 4000} for i in range(24)] +
+    return ([{'kind': 'gen', 'i': i, 'count': 4000} for i in range(24)] + [{'kind': 'hist', 'i': i, 'count': 1500} for i in range(2)] +
             [{'kind': 'lib', 'i': i, 'parts': 16, 'frac': 1.0} for i in range(16)])
 
 
@@ -307,6 +307,62 @@ def illtyped(ctx, rng, g, s):
     ctx.case(('illtyped', sk), nontrivial=True)
 
 
+def run_hist(ctx, spec):
+    """W-HIST: what inference knows about a constant must come from the theory in force NOW - the same constant
+    names are (re)declared at different types in a sequence of ad-hoc theories derived from `real`"""
+    import copy
+    from kernel import theory
+    from syntax import infertype
+    rng = ctx.rng
+    base = theory.thy
+    Mon.origin = 'hist'
+    tpool = [S.NAT, S.BOOL, S.REAL, ('tv', 'a'), ('tc', 'list', (('tv', 'a'),)), ('tc', 'set', (S.NAT,)), S.fun(S.NAT, S.NAT)]
+    try:
+        for round_ in range(spec['count']):
+            theory.thy = copy.copy(base)
+            decls = {}
+            for nm in ('vfc0', 'vfc1', 'vfc2'):
+                argn = rng.choice([0, 1, 2])
+                T = S.funs(*([rng.choice(tpool) for _ in range(argn)] + [rng.choice(tpool + [S.BOOL])]))
+                theory.thy.add_term_sig(nm, S.to_repo_type(T))
+                decls[nm] = T
+            ctx.count('hist_theories')
+            sig = c07.build_sig() + [(nm, G.decl(T)) for nm, T in decls.items()]
+            for k in range(4):
+                g = c07.Gen07(rng, sig, c07.type_pool(), names=c07.NAMES, p_svar=0.1, p_fresh=0.35, p_redex=0.05, overload=c07.OVERLOAD,
+                              weights={'const': 8, 'atom': 3, 'app': 1, 'abs': 2})
+                nm = rng.choice(list(decls))
+                argTs, res = G.strip_fun(G.pinst(G.decl(decls[nm]), {'a': rng.choice([S.NAT, S.BOOL, ('tv', 'a')])}))
+                cT = S.funs(*(argTs + [res]))
+                s_ = ('const', nm, cT)
+                for aT in argTs:
+                    s_ = ('comb', s_, g.gen(aT, rng.choice([0, 1, 2])))
+                if res == S.BOOL and rng.random() < 0.5:
+                    s_ = S.mk_comb(('const', 'conj', S.funs(S.BOOL, S.BOOL, S.BOOL)), s_, g.gen(S.BOOL, 1))
+                if not c07.term_ok(s_):
+                    continue
+                level = rng.choice([0, 1, 2])
+                sk = erase(s_, level, rng)
+                c07.set_ctx([s_])
+                Mon.expect, Mon.level = s_, level
+                ctx.count('hist_inferences')
+                try:
+                    infertype.type_infer(skeleton_term(sk))
+                except infertype.TypeInferenceException:
+                    if level == 2:
+                        ctx.violation('infer:fails-although-constant-and-binder-types-are-given',
+                                      'type inference raised on the erasure of %s (constant %s :: %s declared in the current ad-hoc theory)' % (
+                                          S.tm_str(s_, True), nm, S.ty_str(decls[nm])),
+                                      {'skeleton': S.jsonable(sk), 'origin': 'hist', 'level': 2, 'history': 'constant redeclared at another type in an earlier theory of this process'})
+                except Exception as e:
+                    ctx.count('hist_other_exception:' + type(e).__name__)
+                finally:
+                    Mon.expect, Mon.level = None, None
+                ctx.case(('hist', round_, k, S.alpha(s_)), nontrivial=True)
+    finally:
+        theory.thy = base
+
+
 def run_lib(ctx, spec):
     """library statements are re-parsed from their printed form: every parse goes through type_infer"""
     from kernel import theory
@@ -358,5 +414,7 @@ def run_shard(ctx, spec):
         return
     if spec['kind'] == 'gen':
         run_gen(ctx, spec)
+    elif spec['kind'] == 'hist':
+        run_hist(ctx, spec)
     else:
         run_lib(ctx, spec)
